@@ -128,7 +128,7 @@ def rule_pipeline(ck, rid="C07.R1"):
 
 def rule_pre_details(ck):
     repo = ck.repo
-    rf = repo.fn("remove_finished_sessions")
+    rf = anchored_fn(repo, "remove_finished_sessions", ("modified_sessions",))
     fl = flow_of(rf)
     apps = [(n, c) for n, c in calls_in(fl, "append")]
     ck.require(len(apps) == 1, "C07.R1", rf, apps[0][1] if apps else "append", bad=f"{len(apps)} appends in remove_finished_sessions", sink="rfs:append")
@@ -138,7 +138,7 @@ def rule_pre_details(ck):
         ck.require(ok, "C07.R1", rf, c, ok="kept only while remaining demand exceeds one minimum-pilot period of energy",
                    bad="sessions are kept without the `remaining_demand > min_pilot energy of one period` test: finished sessions keep being charged", sink="rfs:threshold")
         ck.require(c.args and canon(fl.expand(c.args[0], n)) == "session", "C07.R1", rf, c, ok="the session itself is kept", bad="something other than the session is appended", sink="rfs:elem")
-    am = repo.fn("apply_minimum_charging_rate")
+    am = anchored_fn(repo, "apply_minimum_charging_rate", ("rates", "session_queue"))
     al = flow_of(am)
     chk = [n for n in al.cfg.nodes if n.kind == "test" and any(is_feasible_call(x) for x in ast.walk(n.expr))]
     ck.require(len(chk) == 1, "C07.R2", am, "feasibility gate of the minimum rate", bad=f"{len(chk)} feasibility gates in apply_minimum_charging_rate", sink="amcr:gate")
@@ -286,7 +286,7 @@ def rule_bounds(ck):
         loops = [t for t, lab in el.cfg.edges_dominating(n) if t.kind == "for" and lab is True]
         ck.require(len(loops) == 1 and canon(loops[0].stmt.iter) == epl.params[0] and not [t for t, lab in el.cfg.edges_dominating(n) if t.kind == "test"], "C07.R2", epl, n.stmt,
                    ok="for every session", bad="the pilot limit is not enforced for every session", sink="epl:all")
-    aub = repo.fn("apply_upper_bound_estimate")
+    aub = anchored_fn(repo, "apply_upper_bound_estimate", ("new_sessions", "upper_bounds"))
     al = flow_of(aub)
     st = [n for n in al.cfg.nodes if n.kind == "stmt" and isinstance(n.stmt, ast.Assign) and any(dotted(t) == "session.max_rates" for t in n.stmt.targets)]
     ck.require(len(st) == 1, "C07.R2", aub, "session.max_rates = minimum(...)", bad=f"{len(st)} stores of max_rates in apply_upper_bound_estimate", sink="aub:stores")
